@@ -10,6 +10,7 @@ package main
 import (
 	"crypto/sha256"
 	"fmt"
+	"os"
 	"sort"
 	"strconv"
 	"strings"
@@ -38,6 +39,13 @@ type oracle struct {
 	batches map[int]*obatch
 	stacks  map[int][]wrapCfg // wrapper stack (outermost first) of every view handle
 	bstacks map[int][]wrapCfg // ... of every batch handle
+	spy     bool
+	armed   bool // a Flush that reaches the store below the wrappers (and would succeed) fails
+}
+
+// flushFails: a mutation through this stack took effect, but the Flush that flushkv lets follow it fails.
+func (o *oracle) flushFails(stack []wrapCfg) bool {
+	return o.armed && len(flushes(stack)) > 0
 }
 
 func newOracle() *oracle {
@@ -93,6 +101,15 @@ func (o *oracle) expect(f []string) string {
 	bs := func(i int) string { return string(hx.UnHex(f[i])) }
 	switch f[0] {
 	case "spy":
+		o.spy = true
+
+		return "ok"
+	case "arm", "disarm":
+		if !o.spy {
+			return "bad-op"
+		}
+		o.armed = f[0] == "arm"
+
 		return "ok"
 	case "view":
 		pr, ok := o.realms[num(2)]
@@ -136,6 +153,7 @@ func (o *oracle) expect(f []string) string {
 		if !ok {
 			return "bad-handle"
 		}
+		bst := o.bstacks[num(1)]
 		switch f[0] {
 		case "bset":
 			b.ops = append(b.ops, [2]string{bs(2), "S" + bs(3)})
@@ -157,6 +175,9 @@ func (o *oracle) expect(f []string) string {
 				} else {
 					o.m[b.realm+w[0]] = w[1][1:]
 				}
+			}
+			if o.flushFails(bst) {
+				return "notfound"
 			}
 		}
 
@@ -202,6 +223,9 @@ func (o *oracle) expect(f []string) string {
 	case "clear":
 		o.delPrefix(r)
 	case "flush":
+		if o.armed {
+			return "notfound"
+		}
 	case "iter", "iterk", "iterc":
 		if strings.HasPrefix(f[3], "x") { // unknown direction: GetIterDirection panics (after the closed check), nothing changes
 			return "panic"
@@ -212,6 +236,9 @@ func (o *oracle) expect(f []string) string {
 				return ans + " | none"
 			}
 			o.delPrefix(r)
+			if o.flushFails(o.stacks[num(1)]) {
+				return ans + " | notfound"
+			}
 
 			return ans + " | ok"
 		}
@@ -219,6 +246,12 @@ func (o *oracle) expect(f []string) string {
 		return ans
 	default:
 		return "bad-op"
+	}
+	switch f[0] {
+	case "set", "del", "delp", "clear":
+		if o.flushFails(o.stacks[num(1)]) { // the mutation took effect, the Flush behind it failed
+			return "notfound"
+		}
 	}
 
 	return "ok"
@@ -238,11 +271,14 @@ type world struct {
 	stacks  map[int]string // wrapper stack of every view handle, outermost first ("" = bare mapdb, "fd" = flushkv∘debug∘mapdb)
 	batches map[int]*batchRec
 	cbCalls int
+	armed   bool     // the recording store fails every Flush that would have succeeded (with ErrKeyNotFound)
 	spy     bool     // the recording store sits between the wrappers and mapdb
 	events  []string // what it and the debug callbacks recorded during the current request
 	counts  map[string]int
 	// consumers that retained the slices they were handed found them changed afterwards
 	retainedFails []string
+	// the callee wrote behind the end of a slice the caller passed
+	bufFails []string
 }
 
 func newWorld() *world {
@@ -333,11 +369,35 @@ func dirArgs(s string) []kvstore.IterDirection {
 
 func (w *world) exec(f []string) string {
 	num := func(i int) int { n, _ := strconv.Atoi(f[i]); return n }
-	buf := func(i int) []byte { return hx.UnHex(f[i]) } // a fresh buffer per call
+	// a fresh buffer per call, with spare capacity behind it (filled with a sentinel): code that appends to a caller's slice
+	// instead of copying it writes into memory it shares with the caller (and with whoever else appended to the same slice)
+	var handed [][]byte
+	buf := func(i int) []byte {
+		b := withSpare(hx.UnHex(f[i]), 8)
+		handed = append(handed, b)
+
+		return b
+	}
+	defer func() {
+		for _, b := range handed {
+			if !spareIntact(b) {
+				w.bufFails = append(w.bufFails, strings.Join(f, " ")+": the spare capacity of a buffer passed by the caller was written")
+
+				break
+			}
+		}
+	}()
 	switch f[0] {
 	case "spy": // first request of a tree: install the recording store right above mapdb
 		w.views[0] = &spyStore{inner: w.views[0], w: w}
 		w.spy = true
+
+		return "ok"
+	case "arm", "disarm":
+		if !w.spy {
+			return "bad-op"
+		}
+		w.armed = f[0] == "arm"
 
 		return "ok"
 	case "view":
@@ -600,7 +660,8 @@ func genCase(rng *hx.Rng, n int) []string {
 		}
 	}
 	// two of three trees have the recording store between the wrappers and mapdb: their lines carry the forwarded calls
-	if rng.Chance(2, 3) {
+	spy := rng.Chance(2, 3)
+	if spy {
 		ops = append(ops, "spy")
 	}
 	// a debug layer: debug.New(s, cb) | debug.New(s, nil) | debug.New(s, cb, commands...) (Set|Iterate, ShutdownCommand only, random bits)
@@ -813,6 +874,16 @@ func genCase(rng *hx.Rng, n int) []string {
 			default:
 				ops = append(ops, fmt.Sprintf("cancel %d", b))
 			}
+		case x < 995:
+			// arm / disarm the injected Flush failure (error paths of flushkv, Copy, CopyBatched)
+			if !spy {
+				continue
+			}
+			if rng.Chance(3, 5) {
+				ops = append(ops, "arm")
+			} else {
+				ops = append(ops, "disarm")
+			}
 		default:
 			// Close: rare, and more likely late, so that most of a history runs on an open store
 			if len(ops) > 2*n/3 || rng.Chance(1, 8) {
@@ -871,7 +942,7 @@ type caseResult struct {
 
 // opTimeout: a single request takes microseconds; a request that has not returned by then hangs (a lock that is still held, ...).
 // Generous because the machine is shared.
-const opTimeout = 60 * time.Second
+const opTimeout = 30 * time.Second
 
 // guarded runs fn with a watchdog; false = it did not return in time (its goroutine is abandoned).
 func guarded(fn func()) bool {
@@ -898,7 +969,7 @@ func guarded(fn func()) bool {
 func simulate(ops []string) *caseResult {
 	res := &caseResult{counts: map[string]int{}}
 	ws := [2]*world{newWorld(), newWorld()}
-	os := [2]*oracle{newOracle(), newOracle()}
+	orcs := [2]*oracle{newOracle(), newOracle()}
 	for at, op := range ops {
 		f := strings.Fields(op)
 		if len(f) == 0 { // an empty line (hand-made replay): the model answers bad-op, too
@@ -910,7 +981,7 @@ func simulate(ops []string) *caseResult {
 		if f[0] == "2" && len(f) > 1 {
 			tree, f = 1, f[1:]
 		}
-		w, o := ws[tree], os[tree]
+		w, o := ws[tree], orcs[tree]
 		out := opOut{f: f}
 		var ans string
 		want := "bad-op"
@@ -926,7 +997,7 @@ func simulate(ops []string) *caseResult {
 				}
 			})
 			if returned {
-				want, out.copySize = expectCopy(os, f)
+				want, out.copySize = expectCopy(orcs, f)
 				out.copyOK = want == "ok"
 				ws[0].events, ws[1].events = nil, nil
 			}
@@ -971,6 +1042,10 @@ func simulate(ops []string) *caseResult {
 			fail("retained-keys-differ", d, map[string]string{"op": f[0], "oracle": "retained-keys-differ"})
 		}
 		w.retainedFails = nil
+		for _, d := range w.bufFails {
+			fail("caller-buffer-written", d, map[string]string{"op": f[0], "oracle": "caller-buffer-written"})
+		}
+		w.bufFails = nil
 		if want != ans {
 			fail("ordered-map-contract", fmt.Sprintf("%q answered %q, a single ordered map keyed by realm||key answers %q", op, ans, want),
 				map[string]string{"op": f[0], "want": kind(want), "got": kind(ans)})
@@ -1051,7 +1126,20 @@ func runCase(r *hx.Run, sub uint64, ops []string) {
 	emitCase(r, sub, ops, res)
 }
 
+// hangs: cases given up because a request did not return.  The second one ends the run (every further one would cost
+// another opTimeout, and the goroutines left behind keep their stores locked): the findings so far are written out.
+var hangs int
+
 func emitCase(r *hx.Run, sub uint64, ops []string, res *caseResult) {
+	defer func() {
+		if res.hung {
+			if hangs++; hangs >= 2 {
+				r.Count("run-ended-after-two-hangs")
+				r.Finish()
+				os.Exit(0)
+			}
+		}
+	}()
 	r.Case(sub)
 	bigIter, mutations, closedAnswers := 0, 0, 0
 	realms := map[string]struct{}{}
@@ -1178,6 +1266,17 @@ var corpus = [][]string{
 		"iter 8 - bwd 0", "iterk 8 - def 1", "batch 20 8", "bset 20 aa 01", "bdel 20 bb", "commit 20", "cancel 20", "commitf 20", "set 0 00 01",
 		"iterc 8 - fwd 0", "set 8 aa 01", "iterc 8 - fwd 0", "iter 8 - x7 0", "iterk 1 - x2 0", "get 8 aa", "batch 21 3", "bset 21 00 00",
 		"close 8", "set 8 aa 01", "set 3 aa 01", "commit 21", "iter 8 - x7 0", "view 11 8 01 ext", "flush 3", "clear 3", "get 99 00", "bset 99 00 00"},
+	// the error paths: a Flush that fails (not with ErrStoreClosed).  flushkv mutators apply the mutation and return the error
+	// (one Flush only: the layers above see an error); Flush itself fails through every stack; bare / debug views are not
+	// affected; Copy into a flushkv target stops after the first Set, CopyBatched after the first Commit (the rest is not
+	// written), into a bare target everything is written and the final Flush fails; closed store: ErrStoreClosed wins
+	{"spy", "2 spy", "wrap 1 0 f", "wrap 2 1 d", "wrap 3 2 f", "view 4 3 01 ext", "set 4 aa 01", "arm", "set 4 bb 02", "get 4 bb", "del 4 aa",
+		"delp 4 bb", "set 0 01cc 03", "clear 4", "iter 0 - fwd 0", "flush 0", "flush 4", "batch 9 4", "bset 9 dd 04", "commit 9", "get 4 dd",
+		"batch 8 0", "bset 8 ee 05", "commitf 8", "set 4 d1 06", "set 4 d2 07", "iterc 4 - fwd 0", "iter 0 - fwd 0", "set 0 0a 01", "set 0 0b 02",
+		"set 0 0c 03", "2 wrap 1 0 f", "2 arm", "copy 1 0 2 1", "2 iter 0 - fwd 0", "copyb 1 0 2 1 2", "2 iter 0 - fwd 0", "copyb 1 0 2 1 0",
+		"2 iter 0 - fwd 0", "2 clear 0", "copy 1 0 2 0", "2 iter 0 - fwd 0", "copyb 1 0 2 0 1", "2 view 2 1 09 abs", "copyb 1 4 2 2 3",
+		"2 iter 0 - fwd 0", "2 disarm", "copy 1 0 2 1", "disarm", "set 4 aa 01", "arm", "close 0", "set 4 aa 01", "flush 4", "2 arm", "2 close 0",
+		"copy 1 0 2 1", "copyb 1 0 2 1 1"},
 	// wrappers and a consumer that clears the view while iterating
 	{"wrap 1 0 d", "wrap 2 1 f", "view 3 2 7f ext", "set 3 00 01", "set 3 01 02", "set 0 7f 03", "set 0 00 04", "iterc 3 - bwd 0",
 		"iter 0 - fwd 0", "iterc 2 - fwd 1", "iter 0 - fwd 0", "iterc 0 - fwd 0"},
